@@ -400,6 +400,70 @@ def big_io(chk, n, want=None):
                                "library_there": iout[max(0, k - 20):k + 20].hex(), "case": l if len(l) < 4000 else l[:4000] + "…"})
 
 
+def count_thresholds(chk, modes):
+    """requests that touch the LAST parts of records with n = 2^k-1, 2^k, 2^k+1 parts (k = 4 … 14; 15 … 16385 fields, lines, characters or
+    bytes), answered by a plain python selection: code keyed to a count or a size (a first block of 16 KiB, a Vec that starts at 1024
+    entries, an index kept in 8 or 16 bits) shows here.  The model is not involved (it is quadratic in the input length)."""
+    rng = chk.rng
+    ns = sorted({2 ** k + e for k in range(4, 15) for e in (-1, 0, 1)})
+    small_ns = [n for n in ns if n <= 4097] + rng.sample([n for n in ns if n > 4097], 2)
+    cases, exp = [], []
+    for mode in modes:
+        for n in (small_ns if (chk.tier == "quick" and mode == "M") else ns):
+            parts = [rng.choice([b"x", b"y", b"xy"]) if mode != "b" else bytes([rng.choice([0, 10, 97, 255])]) for _ in range(n)]
+            if mode in ("f", "M", "json"):
+                d, inp = b"-", b"-".join(parts) + b"\n"
+            elif mode == "g":
+                d, inp = b"--", b"--".join(parts) + b"\n"
+            elif mode == "l":
+                d, inp = b"\n", b"\n".join(parts) + b"\n"
+            elif mode == "c":
+                parts = [rng.choice(["a", "é", "😎"]).encode() for _ in range(n)]
+                d, inp = b"", b"".join(parts) + b"\n"
+            else:
+                d, inp = b"", b"".join(parts)
+            for l, r in [(n, n), (n - 1, n - 1), (1, n), (n, None), (-1, -1), (-n, -n), (2, n - 1), (n + 1, n + 1), (n - 2, n), (None, n)]:
+                if mode == "M" and ((l is not None and l < 0) or (r is not None and r < 0)):
+                    continue
+                c = {"kind": "cut", "eng": "auto", "d": d, "b": bound_text(l, r, None, l == r), "in": inp}
+                if mode == "M":
+                    c.update({"M": True, "seg": [rng.choice([1, 7, 64, 1000, 4096])], "cyc": True})
+                if mode == "l":
+                    c.update({"bt": "l", "j": True})
+                if mode == "c":
+                    c.update({"bt": "c", "j": True, "r": b""})
+                if mode == "b":
+                    c["bt"] = "b"
+                if mode == "json":
+                    c.update({"json": True, "j": True, "r": b","})
+                rr = resolve_py(l, r, n)
+                if not rr:
+                    e = None
+                else:
+                    sel = parts[rr[0] - 1:rr[1]]
+                    if mode == "json":
+                        e = b"[" + b",".join(b'"' + x + b'"' for x in sel) + b"]\n"
+                    elif mode == "b":
+                        e = b"".join(sel)
+                    else:
+                        e = (b"" if mode == "c" else d).join(sel) + b"\n"
+                cases.append(c)
+                exp.append(e)
+    lines = [case_line(c) for c in cases]
+    impl = run_impl(lines)
+    for c, l, i, e in zip(cases, lines, impl, exp):
+        chk.evaluations += 1
+        chk.count("count-thresholds")
+        chk.nontrivial_add(("count", c.get("bt", "f"), len(c["in"]), c["b"], bool(c.get("M")), bool(c.get("json")), c["d"]))
+        st, out = parse_result(i)
+        bad = st not in ("ok", "fail") or (e is None and st != "fail") or (e is not None and (st != "ok" or out != e))
+        if bad:
+            short = dict(c)
+            chk.report_oracle("a request touching the last parts of a record with 2^k-1 / 2^k / 2^k+1 parts is answered wrongly",
+                              {"case": l if len(l) < 70000 else l[:70000] + "…", "parts": len(e or b""), "implementation": i[:300],
+                               "expected": ("ok " + e.hex()[:300]) if e is not None else "fail (the bound cannot be resolved)"})
+
+
 def argv_stream(chk, tuc_binary, n):
     """K-argv: the model of pico_args + parse_args + main's dispatch (Model/Argv.lean, driver kind `argv`) against the real binary on
     random argument vectors: every spelling pico_args accepts (glued / `=` / quoted values, clusters of short flags), values that look
